@@ -35,6 +35,7 @@ LEVEL_TEXT = (
     "dimension its own (lower, upper) pair and the mode wrap/constant(+that axis' fill value)/edge, and nothing else touches the values; arguments not "
     "given at all resolve like None; pad returns the input only when every width is (0, 0). This decides "
     "the resolution table and widths for all shapes and values structurally; xarray.pad itself is trusted."
+    " Also decided: a zero-width entry anywhere in the widths mapping leaves the other axes' widths intact, and (two calls interpreted as one sequence on one modelled Grid) the options of one call do not outlive it."
 )
 LEVEL_NOTE = "Trusted: xarray.pad semantics. One recorded known finding (periodic given as a list leaves unlisted axes periodic) - see known_findings.json."
 
